@@ -29,7 +29,7 @@ from xsdata.formats.dataclass.client import Client  # noqa: E402
 from xsdata.formats.dataclass.context import XmlContext  # noqa: E402
 from xsdata.formats.dataclass.parsers import XmlParser  # noqa: E402
 from xsdata.formats.dataclass.parsers.config import ParserConfig  # noqa: E402
-from xsdata.formats.dataclass.transports import Transport  # noqa: E402
+from xsdata.formats.dataclass.transports import DefaultTransport, Transport  # noqa: E402
 
 HTTP = "http://schemas.xmlsoap.org/soap/http"
 
@@ -44,6 +44,32 @@ class Recorder(Transport):
     def post(self, url, data, headers):
         self.calls.append((url, data, dict(headers)))
         return self.response
+
+
+class FakeResponse:
+    """What a requests.Response offers to DefaultTransport (SOAP 1.1 over HTTP: faults travel with status 500)."""
+
+    def __init__(self, status, content):
+        self.status_code, self.content, self.ok = status, content, status < 400
+
+    def raise_for_status(self):
+        if self.status_code >= 400:
+            from requests import HTTPError
+            raise HTTPError(f"{self.status_code} Server Error")
+
+
+class FakeSession:
+    """Stands where requests.Session stands inside xsdata's own DefaultTransport; records the call."""
+
+    def __init__(self, status, content):
+        self.calls, self.status, self.content = [], status, content
+
+    def post(self, url, data=None, headers=None, timeout=None, **kw):
+        self.calls.append((url, data, dict(headers or {})))
+        return FakeResponse(self.status, self.content)
+
+    def get(self, *a, **k):
+        raise AssertionError("GET is not part of a SOAP call")
 
 
 @st.composite
@@ -68,6 +94,8 @@ def execute(case, col):
     sources = {"service.wsdl": wsdl}
     if not spec["inline"]:
         sources["types.xsd"] = '<?xml version="1.0" encoding="UTF-8"?>\n' + W.render_xsd(spec)
+    if W.split_elements(spec):
+        sources["part.wsdl"] = W.render_part_wsdl(spec)
     rich = len(spec["ops"]) >= 2 or any(o["header"] or o["fault"] or any(p.get("type") in spec["types"] for p in o["input"] + o["output"]) for o in spec["ops"])
     col.case((spec, case["messages"], sorted(opts.items())), rich,
              labels=[f"style:{spec['style']}", "schema:" + ("inline" if spec["inline"] else "imported"), f"ops:{len(spec['ops'])}"] +
@@ -77,7 +105,7 @@ def execute(case, col):
     with G.Workspace() as ws:
         try:
             uris = ws.write_sources(sources)
-            pkg = ws.generate(None, opts, uris=[u for u in uris if u.endswith(".wsdl")], package=ws.unique_package("c17") + ".gen")
+            pkg = ws.generate(None, opts, uris=[u for u in uris if u.endswith("service.wsdl")], package=ws.unique_package("c17") + ".gen")
             mods = ws.import_all(pkg)
         except Exception as e:
             return [Failure(exc_sig("generate-or-import", e), f"{type(e).__name__}: {e}{tail}", case)]
@@ -105,10 +133,13 @@ def execute(case, col):
             except Exception as e:
                 return [Failure(exc_sig("prescribed-request-rejected", e), f"{type(e).__name__}: {e}\noperation {op['name']}\nrequest: {msg['request']}{tail}", case)]
             for kind in ("response", "fault"):
-                rec = Recorder(msg[kind].encode())
+                # alternately a recording Transport and xsdata's own DefaultTransport over a recording session (fault = HTTP 500)
+                use_default = (spec["ops"].index(op) + (kind == "fault")) % 2 == 1
+                rec = FakeSession(500 if kind == "fault" else 200, msg[kind].encode()) if use_default else Recorder(msg[kind].encode())
                 try:
                     # one caller-owned headers dict serves every call of the case
-                    res = Client(config=Client.from_service(svc).config, transport=rec).send(req, headers=caller_headers)
+                    transport = DefaultTransport(session=rec) if use_default else rec
+                    res = Client(config=Client.from_service(svc).config, transport=transport).send(req, headers=caller_headers)
                 except Exception as e:
                     return [Failure(exc_sig(f"client-send-raise/{kind}", e), f"{type(e).__name__}: {e}\noperation {op['name']}\nresponse: {msg[kind]}{tail}", case)]
                 if len(rec.calls) != 1:
